@@ -49,7 +49,9 @@ pub fn sender_stream(prog: &Program, start: Option<u32>) -> (Vec<TracingEvent>, 
         Some(n) => TracingEventSender::verif_with_next_span_id(on_event, n),
     };
     let dispatch = Dispatch::new(sender);
-    let log = program::run(&dispatch, prog);
+    // (the guest runs with the sender as its current subscriber, so that code of the guest reached
+    // from inside a subscriber call - a `Debug` impl that logs - finds it)
+    let log = dispatcher::with_default(&dispatch, || program::run(&dispatch, prog));
     drop(dispatch);
     let evs = std::mem::take(&mut *events.lock().unwrap());
     (evs, log)
@@ -294,16 +296,44 @@ impl Suite for Prog {
                 }
             }
         }
-        if focus == "C12" && idx % 10 == 3 {
+        if idx % 8 == 5 && !lines.iter().any(|l: &String| l.starts_with("direct")) {
+            // values whose `Debug` impl itself uses tracing (a lazily loaded resource whose loader
+            // logs): recorded on a span later, they emit an event of an already used call site of the
+            // program while they are rendered. Judged by the harness oracles only (C12: one event per
+            // subscriber operation, C01: tunnelled = native); the model has no such values.
+            let mut used_event_sites: Vec<usize> = vec![];
+            let mut changed = false;
+            for op in &mut prog.ops {
+                match op {
+                    POp::Evt { k, .. } if prog.sites[*k].fields.is_empty() || true => {
+                        if !used_event_sites.contains(k) {
+                            used_event_sites.push(*k);
+                        }
+                    }
+                    POp::Rec { vals, .. } if !used_event_sites.is_empty() && !vals.is_empty() && rng.chance(2, 3) => {
+                        let pos = rng.below(vals.len());
+                        let k = *rng.pick(&used_event_sites);
+                        vals[pos].1 = format!("dbgev:{k}.{}", crate::proto::hex(format!("Lazy({})", rng.below(3)).as_bytes()));
+                        changed = true;
+                    }
+                    _ => {}
+                }
+            }
+            if changed {
+                lines.push("nestedtracing 1".into());
+            }
+        }
+        if focus == "C12" && idx % 10 == 3 && !lines.iter().any(|l: &String| l == "nestedtracing 1") {
             lines.push(format!("threads {} {}", rng.range(2, 16), rng.range(5, 200)));
         }
-        if focus == "C12" && idx % 25 == 7 {
+        let nested = lines.iter().any(|l: &String| l == "nestedtracing 1");
+        if focus == "C12" && idx % 25 == 7 && !nested {
             lines.push(format!("sender start {}", u32::MAX - rng.below(3) as u32));
         }
-        if focus == "C13" || (focus.is_empty() && idx % 4 == 0) {
+        if (focus == "C13" || (focus.is_empty() && idx % 4 == 0)) && !nested {
             lines.push(format!("filter {}", rng.below(5)));
         }
-        if (focus == "C13" && idx % 2 == 0) || (focus == "C01" && idx % 4 == 1) {
+        if ((focus == "C13" && idx % 2 == 0) || (focus == "C01" && idx % 4 == 1)) && !nested {
             lines.push(format!("prehost {}", rng.below(3)));
         }
         lines.extend(prog.lines());
@@ -321,6 +351,7 @@ impl Suite for Prog {
         let mut start: Option<u32> = None;
         let mut prehost: Option<u8> = None;
         let direct = rest.iter().any(|l| l == "direct 1");
+        let nested_tracing = rest.iter().any(|l| l == "nestedtracing 1");
         for l in &rest {
             let mut t = Toks::new(l);
             match t.next() {
@@ -368,7 +399,7 @@ impl Suite for Prog {
         // ---- native
         let native = StrictHost::new(max_level);
         let nd = Dispatch::new(native.clone());
-        let _native_calls = program::run(&nd, &prog);
+        let _native_calls = dispatcher::with_default(&nd, || program::run(&nd, &prog));
         let nlog: Vec<String> = native.take_log().iter().map(|l| by_content(l, &prog.sites)).collect();
         // ---- sender
         let (events, fe_log) = sender_stream(&prog, None);
@@ -476,6 +507,11 @@ impl Suite for Prog {
         }
         for o in &prog.ops {
             out.tags.push(format!("op:{}", o.tok().split(' ').nth(1).unwrap()));
+        }
+        if nested_tracing {
+            // oracle-only: the model has no values whose rendering emits events
+            out.obs.clear();
+            out.tags.push("nested-tracing".into());
         }
         out
     }
